@@ -1163,6 +1163,8 @@ impl Matcher {
             match branch {
                 Branch::NewCandidates(candidates) => {
                     let start = Instant::now();
+                    #[cfg(feature = "verif")]
+                    let verif_batch_len: usize = candidates.values().map(|pks| pks.len()).sum();
                     if let Err(e) = block_in_place(|| {
                         self.handle_candidates(&mut state_conn, candidates, false)
                     }) {
@@ -1178,7 +1180,10 @@ impl Matcher {
                     let elapsed = start.elapsed();
 
                     #[cfg(feature = "verif")]
-                    crate::verif::emit("matcher.batch_done", &self.id.to_string());
+                    crate::verif::emit(
+                        "matcher.batch_done",
+                        &format!("{}|{verif_batch_len}", self.id),
+                    );
 
                     histogram!("corro.subs.changes.processing.duration.seconds", "sql_hash" => self.hash.clone()).record(elapsed);
 
